@@ -34,9 +34,14 @@ Codec(s, e1, e2) == IF UsesOpenPath(Adapter(s, e1, e2)) THEN CodecOfExt(LastExt(
 \* compressed JSON lines are not supported: the JSON writer hands text to the (binary) compressor and every write raises
 Supported(a, c) == ~(a = "jsonfile" /\ c # "none")
 ContainerOf(a) == CASE a = "stream" -> "stream" [] a = "jsonfile" -> "json" [] a = "csvfile" -> "csv" [] a = "avro" -> "avro" [] a = "line" -> "line" [] a = "text" -> "text"
-VARIABLES s, e1, e2, q
-vars == <<s, e1, e2, q>>
-Init == s \in Schemes /\ e1 \in Ext1 /\ e2 \in Ext2 /\ q \in Queries
+\* clobber = FALSE: the writer must refuse an output file that already exists and leave it untouched; on a path that does
+\* not exist yet it behaves exactly like the default
+VARIABLES s, e1, e2, q, clobber, exists
+vars == <<s, e1, e2, q, clobber, exists>>
+Init == s \in Schemes /\ e1 \in Ext1 /\ e2 \in Ext2 /\ q \in Queries /\ clobber \in BOOLEAN /\ exists \in BOOLEAN
+\* As built only the record-stream adapter honours clobber = FALSE; every other writer swallows the argument and overwrites
+\* (an observation outside the listed properties, written down here as what the code does)
+Refuses == ~clobber /\ exists /\ AdapterQ(s, e1, e2, q) = "stream"
 Next == UNCHANGED vars
 Spec == Init /\ [][Next]_vars
 \* C11, writer side: when the name alone decides (no scheme), a codec extension compresses and the container is the one
